@@ -25,6 +25,7 @@ def make_machine(mod, job, mode='real'):
     m.nthreads = job.get('threads', 1)
     m.libm_small = bool(job.get('libm_small', False))
     m.rehash_bias = job.get('rehash_bias', 0)
+    m.fork_int_selects = bool(job.get('fork_int_selects', False))
     hook = job.get('machine_hook')
     if hook:
         _PROP['hooks'][hook](m, job)
@@ -32,10 +33,10 @@ def make_machine(mod, job, mode='real'):
 
 
 def entry_args(m, job):
-    args = list(job.get('args', [])) + [0] * 16
-    p = m.alloc(4 * 16, 'global', 'harness-args')
+    args = list(job.get('args', [])) + [0] * 32
+    p = m.alloc(4 * 32, 'global', 'harness-args')
     from .interp import Ptr
-    for i in range(16):
+    for i in range(32):
         m.store(Ptr(p.obj, 4 * i), args[i] & 0xffffffff, 4)
     return [p]
 
@@ -329,7 +330,9 @@ def _job_worker(idx):
                 if key in seen_r:
                     continue
                 seen_r.add(key)
-                if kind == 'nonzero':
+                if kind == 'inbounds':
+                    c = t
+                elif kind == 'nonzero':
                     c = mk_cmp('ne', t, 0)
                 else:
                     c = mk_and(mk_cmp('le', -(1 << (bits - 1)), t), mk_cmp('le', t, (1 << (bits - 1)) - 1))
@@ -406,6 +409,10 @@ def _job_worker(idx):
                 else:
                     ass += [p for d, p in zip(m.divisors[:ndiv], divprem[:ndiv]) if p is not None and d.id in cone]
                 text, logic, nd = smt.build(ass, goals, extra_asserts=hints[key[1]][0] if hinted else ())
+                if len(chunk) == 1 and not wit:
+                    names = sorted(t.args[0] for t in symbols_of([g for g in goals if isinstance(g, Term)] + [x for x in ass if isinstance(x, Term)]))
+                    if names:
+                        text = text.replace('(check-sat)\n', '(check-sat)\n(get-value (' + ' '.join(names) + '))\n')
                 if len(chunk) > 1 and logic not in ('QF_LRA', 'QF_LIA'):
                     # z3's incremental mode (push/pop) does not use nlsat: one process per non-linear goal
                     chunks[ci:ci] = [[c] for c in chunk]
@@ -534,8 +541,9 @@ def solve_batch(b, quick):
     primary = 'cvc5' if logic == 'QF_LRA' else 'z3'
     other = 'z3' if primary == 'cvc5' else 'z3new'
     # whole batch under one hard cap (the common all-unsat case takes milliseconds) ...
-    ans, wall, raw = smt.run(text, primary, cap, wd, tag='s', per_query_ms=cap * 1000)
+    ans, wall, raw = smt.run(text, primary, cap, wd, tag='s', per_query_ms=cap * 1000, decimal=(primary == 'z3' and n == 1))
     solver = primary
+    raw_model = raw if (n == 1 and ans and ans[0] == 'sat') else None
 
     def undecided(a):
         return a.startswith('error') or a in ('unknown', 'timeout')
@@ -551,12 +559,14 @@ def solve_batch(b, quick):
         for gi in range(n):
             if undecided(ans[gi]):
                 q = single_goal_text(text, gi, None) if n > 1 else text
-                a2, w2, r2 = smt.run(q, other, cap, wd, tag='s2', per_query_ms=cap * 1000)
+                a2, w2, r2 = smt.run(q, other, cap, wd, tag='s2', per_query_ms=cap * 1000, decimal=(n == 1))
                 wall += w2
                 if a2[0] in ('sat', 'unsat'):
                     ans[gi] = a2[0]
+                    if n == 1 and a2[0] == 'sat':
+                        raw_model = r2
         solver = primary + '+' + other
-    return dict(answers=ans, wall=wall, solver=solver)
+    return dict(answers=ans, wall=wall, solver=solver, raw_model=raw_model)
 
 
 def single_goal_text(batch_text, gi, names):
@@ -593,7 +603,7 @@ def declared_syms(text):
     return re.findall(r'^\(declare-fun (\S+) \(\) (?:Real|Int|Bool)\)', text, re.M)
 
 
-def get_model(b, gi, extra_asserts=()):
+def get_model(b, gi, extra_asserts=(), cap=300):
     text = open(b['file']).read()
     names = declared_syms(text)
     q = single_goal_text(text, gi, names)
@@ -601,12 +611,12 @@ def get_model(b, gi, extra_asserts=()):
         q = q.replace('(check-sat)', '\n'.join(extra_asserts) + '\n(check-sat)')
     logic = b.get('logic')
     primary = 'cvc5' if logic == 'QF_LRA' else 'z3'
-    ans, wall, raw = smt.run(q, primary, 300, os.path.dirname(b['file']), tag='m', decimal=(primary == 'z3'))
+    ans, wall, raw = smt.run(q, primary, cap, os.path.dirname(b['file']), tag='m', decimal=(primary == 'z3'))
     if ans and ans[0] == 'sat':
         env = smt.parse_values(raw)
         return env, raw
     if primary == 'cvc5':
-        ans, wall, raw = smt.run(q, 'z3', 300, os.path.dirname(b['file']), tag='m', decimal=True)
+        ans, wall, raw = smt.run(q, 'z3', cap, os.path.dirname(b['file']), tag='m', decimal=True)
         if ans and ans[0] == 'sat':
             return smt.parse_values(raw), raw
     return None, raw
